@@ -65,7 +65,7 @@ class C19(Prop):
             'token_type, child counts), consistent parents, same get_code and dump; refactor(m, {}) == text; refactor(m, mapping) == '
             'text with each mapped span [offset of first leaf prefix, end of last leaf) replaced (offsets by running sums). '
             'Non-trivial: tree has a param, error node/leaf, keyword statement or f-string, or mapping has >=2 targets.')
-    budgets = {'quick': 16000, 'thorough': 400000}
+    budgets = {'quick': 16000, 'thorough': 1600000}
 
     def strategy(self, tier):
         kinds = ('repo',) if tier == 'quick' else ('repo', 'stdlib3.12')
